@@ -316,3 +316,129 @@ Section Facts2.
     (forall i, V2 "solve1_eq0" i = 0) -> (forall i, V2 "solve1_eq1" i = 0) -> r2_facts.
   Proof. intros H2 Hz0 Hz1. prove_r2 calculate_r2_hN H2 Hz0 Hz1. Qed.
 End Facts2.
+
+(* ------------------------------------------------------------------------------------------ *)
+(* Second order: claims *)
+Section R2.
+  Context {I : Type} (O : ops I) (S : string -> I -> R).
+  Hypothesis HD : derivation O.
+  Hypothesis HA : axis_facts S.
+  Hypothesis HR : r1_facts O S.
+  Hypothesis H2 : r2_facts O S.
+  Hypothesis Hadm : admissible S.
+  Hypothesis Hsig : forall i, sigma_residual O S i = 0.
+  Let HL : linear O := der_lin O HD.
+
+  Notation kap := (S "s.curvature"). Notation eta := (S "s.etabar"). Notation sig := (S "s.sigma").
+  Notation sG := (S "s.sG"). Notation spsi := (S "s.spsi"). Notation lp := (S "s.abs_G0_over_B0").
+  Notation B0 := (S "s.B0"). Notation iotaN := (S "s.iotaN"). Notation tau := (S "s.torsion").
+  Notation X1c := (S "s.X1c"). Notation Y1c := (S "s.Y1c"). Notation Y1s := (S "s.Y1s").
+  Notation dX1c := (S "s.d_X1c_d_varphi"). Notation dY1c := (S "s.d_Y1c_d_varphi"). Notation dY1s := (S "s.d_Y1s_d_varphi").
+
+  Ltac sign_cases i :=
+    let HsG := fresh "HsG" in let Hsp := fresh "Hsp" in
+    destruct (sq1_cases _ (adm_sG S Hadm i)) as [HsG|HsG];
+    destruct (sq1_cases _ (adm_spsi S Hadm i)) as [Hsp|Hsp];
+    rewrite ?HsG, ?Hsp.
+  Ltac nonzero i :=
+    pose proof (adm_eta S Hadm i); pose proof (adm_kappa S Hadm i);
+    pose proof (Rgt_not_eq _ _ (adm_B0 S Hadm i)); pose proof (Rgt_not_eq _ _ (adm_lp S Hadm i));
+    pose proof (adm_dvp S Hadm i).
+
+  Lemma bl_lp i : bl S i = / lp i.
+  Proof.
+    unfold bl. rewrite (ax_G0 S HA). cbv beta.
+    pose proof (adm_B0 S Hadm i) as Hb. pose proof (adm_lp S Hadm i) as Hl.
+    rewrite !Rabs_mult, (Rabs_pos_eq (lp i)), (Rabs_pos_eq (B0 i)) by lra.
+    assert (Hs : Rabs (sG i) = 1).
+    { destruct (sq1_cases _ (adm_sG S Hadm i)) as [E|E]; rewrite E; unfold Rabs; destruct Rcase_abs; lra. }
+    rewrite Hs. field. split; lra.
+  Qed.
+  Lemma ll_lp i : ll S i = lp i.
+  Proof. unfold ll. rewrite bl_lp. pose proof (adm_lp S Hadm i). field. lra. Qed.
+
+  Lemma Z20_formula i : S "s.Z20" i = - / lp i / 8 * (2 * (X1c i * dX1c i + Y1c i * dY1c i + Y1s i * dY1s i)).
+  Proof.
+    rewrite (r2_Z20 O S H2), bl_lp, (r1_dX1c O S HR), (r1_dY1c O S HR), (r1_dY1s O S HR). unfold Dv.
+    rewrite !(D_add O HL), !(D_mul O HD). nonzero i. field. split; assumption.
+  Qed.
+  Lemma Z2s_formula i : S "s.Z2s" i = - / lp i / 8 * (2 * (dY1s i * Y1c i + Y1s i * dY1c i)
+                                     - 2 * iotaN i * (X1c i * X1c i + Y1c i * Y1c i - Y1s i * Y1s i)).
+  Proof.
+    rewrite (r2_Z2s O S H2), bl_lp, (r1_dY1c O S HR), (r1_dY1s O S HR). unfold Dv.
+    rewrite (D_mul O HD (fun k => 2 * Y1s k) Y1c i), (D_scal O HL 2 Y1s i). nonzero i. field. split; assumption.
+  Qed.
+  Lemma Z2c_formula i : S "s.Z2c" i = - / lp i / 8 * (2 * (X1c i * dX1c i + Y1c i * dY1c i - Y1s i * dY1s i)
+                                     + 2 * iotaN i * (2 * Y1s i * Y1c i)).
+  Proof.
+    rewrite (r2_Z2c O S H2), bl_lp, (r1_dX1c O S HR), (r1_dY1c O S HR), (r1_dY1s O S HR). unfold Dv.
+    rewrite (D_sub O HL), !(D_add O HL), !(D_mul O HD). nonzero i. field. split; assumption.
+  Qed.
+
+  Section Claims.
+    Variable i : I.
+    Variable b : atoms.
+    Ltac start := destruct b; unfold with_second_order, atoms_of; nonzero i.
+    Ltac split_coefs := compute_coef; repeat first [apply Forall_nil | apply Forall_cons | split]; cbn [fst snd cv]; try reflexivity.
+
+    Lemma rad1 : tzero (rad (with_second_order S i b) 1%nat).
+    Proof.
+      start. split_coefs; rewrite ?Z20_formula, ?Z2s_formula, ?Z2c_formula; field; assumption.
+    Qed.
+    Ltac subst_r1 :=
+      rewrite ?(ax_G0 S HA), ?(ax_X1c S HA), ?(r1_Y1s O S HR), ?(r1_Y1c O S HR); cbv beta.
+    Ltac subst_r1d :=
+      rewrite ?(dX1c_formula O S HD HA HR Hadm), ?(dY1s_formula O S HD HR Hadm), ?(dY1c_formula O S HD HR Hadm).
+    Ltac subst_Z := rewrite ?Z20_formula, ?Z2s_formula, ?Z2c_formula.
+    Ltac subst_Y2 := rewrite ?(r2_Y2s O S H2), ?(r2_Y2c O S H2); unfold alg_Y2s, alg_Y2c.
+
+    Lemma Dsig_formula : Dv O S sig i
+      = 2 * (eta i * eta i / (kap i * kap i)) * (- spsi i * tau i + S "s.I2" i / B0 i) * S "s.G0" i / B0 i
+        - iotaN i * (eta i ^ 4 / kap i ^ 4 + 1 + sig i * sig i).
+    Proof. pose proof (Hsig i) as K. unfold sigma_residual in K. unfold Dv. lra. Qed.
+
+    Lemma pol3 : tzero (pol (with_second_order S i b) 3%nat).
+    Proof.
+      pose proof (pol3_avg_identity O S HD HA HR Hadm i (atoms_of S i)) as K. rewrite Hsig, Rmult_0_r in K.
+      start. split_coefs; [exact K | |]; subst_Z; field; assumption.
+    Qed.
+    Lemma tor2 : tzero (tor (with_second_order S i b) 2%nat).
+    Proof.
+      start. split_coefs; subst_Y2; subst_r1; sign_cases i; field; repeat split; assumption.
+    Qed.
+    Lemma jac2 : tzero (jac (with_second_order S i b) 2%nat).
+    Proof.
+      start. split_coefs; subst_Y2; subst_r1; sign_cases i; field; repeat split; assumption.
+    Qed.
+    Lemma modB2 : tzero (modB (with_second_order S i b) 2%nat).
+    Proof.
+      start. split_coefs.
+      - rewrite (r2_B20 O S H2), (r2_G2 O S H2). unfold q_c, q_s, r_c, r_s. rewrite ll_lp, bl_lp.
+        rewrite <- ?(r1_dX1c O S HR), <- ?(r1_dY1c O S HR), <- ?(r1_dY1s O S HR).
+        subst_r1d. rewrite Dsig_formula. subst_r1. sign_cases i; field; repeat split; assumption.
+      - rewrite (r2_X2c O S H2). unfold q_c, q_s, r_c, r_s. rewrite ll_lp, bl_lp.
+        rewrite <- ?(r1_dX1c O S HR), <- ?(r1_dY1c O S HR), <- ?(r1_dY1s O S HR).
+        subst_Z. subst_r1. sign_cases i; field; repeat split; assumption.
+      - rewrite (r2_X2s O S H2). unfold q_c, q_s, r_c, r_s. rewrite ll_lp, bl_lp.
+        rewrite <- ?(r1_dX1c O S HR), <- ?(r1_dY1c O S HR), <- ?(r1_dY1s O S HR).
+        subst_Z. subst_r1. sign_cases i; field; repeat split; assumption.
+    Qed.
+
+    Ltac subst_d2 :=
+      rewrite ?(r2_dX20 O S H2), ?(r2_dX2s O S H2), ?(r2_dX2c O S H2), ?(r2_dY20 O S H2), ?(r2_dY2s O S H2), ?(r2_dY2c O S H2);
+      unfold Dv, C04_spec.Dv.
+    Ltac use_ode c E Hode :=
+      match goal with |- ?L = 0 => transitivity (c * E); [ | rewrite Hode; ring] end;
+      unfold ode1, ode2, fX0, fXs, fXc, fY0, fYs, fYc, C04_spec.lp;
+      change (S "s.B0" i / Rabs (S "s.G0" i)) with (bl S i); rewrite bl_lp;
+      subst_d2; subst_Y2; subst_Z; subst_r1d; rewrite ?Dsig_formula; subst_r1; unfold Dv.
+    Lemma crl2 : tzero (crl (with_second_order S i b) 2%nat).
+    Proof.
+      start. split_coefs; try ring.
+      - use_ode (-2 * spsi i * B0 i) (ode1 O S "s.X20" "s.Y20" i) (r2_ode1 O S H2 i).
+        sign_cases i; field; repeat split; assumption.
+      - use_ode (2 * spsi i * B0 i) (ode2 O S "s.X20" "s.Y20" i) (r2_ode2 O S H2 i).
+        sign_cases i; field; repeat split; assumption.
+    Qed.
+  End Claims.
+End R2.
